@@ -64,6 +64,18 @@ CLAIMED = {
    technique="property-based testing against an independent input-resolution and naming model; created-output set and per-source execution counters",
    text="Generated trees with the three source-name shapes, look-alikes and dependencies are processed with generated input lists (directories, either name, ./ ../ absolute, duplicates, missing, plain files) and recursion on/off, with base directory != cwd; the created outputs and per-source command counters must match the model's processed set exactly, missing targets must fail, clean must remove exactly the named sources' outputs.",
    note="No symlinks; relative base directories are exercised by C17's child processes."),
+ "C04": dict(level="fault_enumeration", design="5 C04, 4.5",
+   technique="fault injection by enumeration with real OS faults (occupied paths, invalid bytes, signal-killed commands, RLIMIT_FSIZE in child processes) x position x mode x controlled schedules; control twin per faulty case; CLI exit status",
+   text="Each generated case puts exactly one fault of twelve kinds into one file of a dependency DAG, at a leaf / middle / root / unrelated position, before or after its dependency directives, and runs it in every mode under harness-chosen completion orders; the run must fail iff the faulty file is required, and any reported success must come with complete, correct outputs. Write failures are real: child processes under RLIMIT_FSIZE around the lengths of the generated files, including outputs larger than the 8 KiB write buffer, for the library and the binary.",
+   note="ENOSPC-on-close is approximated by EFBIG-on-write; clean mode only gets directive faults (it is documented to ignore them)."),
+ "C17": dict(level="exploration", design="5 C17",
+   technique="property-based testing over (depth, base-vs-cwd, entry point, shell, command shape, exit status) with child processes for cwd/base combinations, an argv-dumping shell and the real binary",
+   text="The working directory, argv, TXTPP_FILE, stdout splicing, exit-status handling and the recursion guard of run directives are observed from inside the command (pwd / a dumper script) for sources at depth 0-3, with the base directory equal to, above, below or unrelated to the process cwd, through the library (in-process and in a child) and the binary. Found the base-relative working-directory defect (fixed).",
+   note="TXTPP_FILE: only 'designates the source' is asserted (README says absolute, a fixture pins base-relative)."),
+ "C18": dict(level="exploration", design="5 C18",
+   technique="robustness fuzzing: proptest-driven grammar-aware, byte-level and mutated-well-formed generators + coverage-guided libFuzzer campaign (thorough) on the same decoder; oracle = returns, no panic on any thread, no abort, no logical deadlock; Landlock-confined workers",
+   text="Arbitrary file contents, directive arguments and option values (threads 0-16, all modes) are thrown at the library inside a Landlock sandbox; a global panic hook plus the task guards of the verif hooks see panics on any thread, the controller's idle-poll rule turns a dead worker into a detected deadlock instead of a hang, and worker-process deaths are attributed through a journal. Found the -j 0 panic (fixed).",
+   note="Nothing semantic is asserted, so no false alarms from semantics; a loop inside a task is only caught by the clock backstop."),
 }
 
 NOT_YET = "check not built yet in this revision of /verif (see DESIGN.md section 5 for the planned generated-input check); not claimed until its machinery exists"
